@@ -182,6 +182,9 @@ def run_py(scenarios, wd, hashseed="0", tagname="py", extra_env=None):
     return outs
 
 
+LEAN_TIMEOUT = int(os.environ.get("VERIF_LEAN_TIMEOUT", "1500"))
+
+
 def run_lean(scenarios, wd, tagname="lean"):
     if not scenarios:
         return []
@@ -200,8 +203,13 @@ def run_lean(scenarios, wd, tagname="lean"):
 
     def feed(ix):
         p, data, cnt = procs[ix]
-        o, e = p.communicate(data)
-        results[ix] = (o, e, p.returncode)
+        try:
+            o, e = p.communicate(data, timeout=LEAN_TIMEOUT)
+            results[ix] = (o, e, p.returncode)
+        except subprocess.TimeoutExpired:
+            p.kill()
+            o, e = p.communicate()
+            results[ix] = (o or "", (e or "") + f"\n[killed after {LEAN_TIMEOUT}s]", -9)
     ths = [threading.Thread(target=feed, args=(i,)) for i in range(len(procs))]
     for t in ths:
         t.start()
